@@ -134,6 +134,12 @@ def handle : List Sx → Sx
         | some r => .list [qstSx (legacyQ s), qobjSx r]
         | none => .list [qstSx (legacyQ s), .atom "ValueError"]
       | _ => err "mode"
+  | [.atom "cols", isz, .list rows] =>
+    match isz.toNat?, rows.mapM Sx.nats? with
+    | some isz, some rows =>
+      let cols := itemColumns isz rows
+      .list [itemsSx cols, itemsSx (itemRows rows.length cols)]
+    | _, _ => err "cols"
   | _ => err "c11-op"
 
 end Drv.C11
